@@ -186,6 +186,14 @@ def check_forwarding(c, repo):
     kn = g.node_for(k)
     for n in dims + setw:
         c.check(g.path(kn, n, skip_labels=('exc',), include_start=False) is None, sp, n.ast, 'settings are complete before the child is started', tag='complete-before:' + norm(n.ast)[:20])
+    for attr, srcattr in (('pid', 'pid'), ('child_fd', 'fd')):
+        asg = [n for n in g.nodes if n.kind == 'stmt' and stmt_assigns_attr(n.ast, attr) is not None]
+        ok = len(asg) == 1 and norm(asg[0].ast.value) == 'self.ptyproc.' + srcattr and g.path(kn, asg[0], skip_labels=('exc',)) is not None
+        c.check(ok, sp, asg[0].ast if asg else None, 'self.%s is the new child\'s %s' % (attr, srcattr), witness=norm(asg[0].ast) if asg else 'missing', kind='ast', tag='child-' + attr)
+    for attr in ('terminated', 'closed'):
+        asg = [n for n in g.nodes if n.kind == 'stmt' and stmt_assigns_attr(n.ast, attr) is not None]
+        ok = len(asg) == 1 and is_const(asg[0].ast.value, False) and g.path(kn, asg[0], skip_labels=('exc',)) is not None
+        c.check(ok, sp, asg[0].ast if asg else None, 'after a successful start the object is marked not %s' % attr, kind='ast', tag='started-' + attr)
     # _spawnpty
     pp = repo.func('pty_spawn:spawn._spawnpty')
     ks2 = [kk for kk in calls_in(pp.node) if (dotted(kk.func) or '').endswith('PtyProcess.spawn')]
